@@ -645,3 +645,118 @@ let () =
         | RgPanic, _, _ -> "valid init=panic"
         | _, _, _ -> "valid init=other")
     | _ -> "badargs")
+
+(* wbzdegen l0 l1 ... : handleDegenerateCodes on a length vector (Bzip2/Degenerate.v);
+   wbzbuild l0 l1 ... : the code list ReadPrefixCodes initialises the decoder with *)
+let () =
+  let fmt_codes l =
+    "ok " ^ (if l = [] then "-" else String.concat "," (List.map (fun ((s, ln), v) ->
+      n_to_string s ^ ":" ^ n_to_string ln ^ ":" ^ n_to_string v) l)) in
+  let lens_of args = List.filter_map (fun a -> if a = "-" then None else Some (n_of_string a)) args in
+  register "wbzdegen" (fun args ->
+    match handle_degenerate (lens_of args) with
+    | DOk l -> fmt_codes l
+    | DPanic -> "panic"
+    | DFuel -> "fuel"
+    | DUnmodelled -> "unmodelled");
+  register "wbzbuild" (fun args ->
+    match build_codes (lens_of args) with
+    | BOk l -> fmt_codes l
+    | BInternal -> "err Internal"
+    | BPanic -> "panic"
+    | BFuel -> "fuel"
+    | BUnmodelled -> "unmodelled")
+
+(* ---- WBRBITS: brotli's own bit reader (Brotli/BitReaderImpl.v) ------------------------------
+   brbits <hex|-> <mode 0|1> <bsz> <reads|-> op... ; op = b:<n> | t:<n> | u:<n> | p | r:<k> | f
+   observation per operation: outcome/bitsread:bufBits:numBits:offset:len(bufPeek):discardBits:
+   fedBits:source position:source buffered
+   brspec: same arguments; Brotli/BitReaderSpec.v bcheck_model *)
+let br_parse_ops ops = List.map (fun o -> match colon o with
+  | ["b"; n] -> BBits (n_of_string n)
+  | ["t"; n] -> BTry (n_of_string n)
+  | ["u"; n] -> BFeed (n_of_string n)
+  | ["r"; k] -> BRaw (nat_of_int (int_of_string k))
+  | ["p"] -> BPads
+  | ["f"] -> BFlush
+  | _ -> failwith "brbits op") ops
+
+let br_ints s = if s = "-" then [] else List.map (fun x -> nat_of_int (int_of_string x)) (String.split_on_char ',' s)
+
+let br_val_string (v : bval) : string = match v with
+  | VBits x -> "b:" ^ n_to_string x
+  | VEof -> "ueof" | VCrash -> "crash" | VFuel -> "fuel"
+  | VTry None -> "t:no" | VTry (Some x) -> "t:" ^ n_to_string x
+  | VFeed -> "u"
+  | VPads x -> "p:" ^ n_to_string x
+  | VRaw (bs, e) -> Printf.sprintf "r:%s:%s" (if bs = [] then "-" else hex_of_bytes bs) (n_to_string e)
+  | VFlush off -> "f:" ^ z_to_string off
+
+let br_state_string (p : prd) : string =
+  Printf.sprintf "%s:%s:%s:%s:%d:%s:%s:%d:%d"
+    (z_to_string (bits_read p)) (n_to_string p.p_bufBits) (n_to_string p.p_numBits)
+    (z_to_string p.p_offset) (List.length p.p_peek) (z_to_string p.p_discard)
+    (n_to_string p.p_fed) (int_of_nat p.p_src.s_pos) (int_of_nat p.p_src.s_buf)
+
+let () =
+  register "brbits" (fun args -> match args with
+    | hex :: mode :: bsz :: reads :: ops ->
+      let data = if hex = "-" then [] else bytes_of_hex hex in
+      let p0 = binit data (mode = "1") (br_ints reads) in
+      let obs = brun (nat_of_int (int_of_string bsz)) p0 (br_parse_ops ops) in
+      String.concat "," (List.map (fun (v, p) -> br_val_string v ^ "/" ^ br_state_string p) obs)
+    | _ -> "badargs");
+  register "brspec" (fun args -> match args with
+    | hex :: mode :: bsz :: reads :: ops ->
+      let data = if hex = "-" then [] else bytes_of_hex hex in
+      if bcheck_model data (mode = "1") (nat_of_int (int_of_string bsz)) (br_ints reads) (br_parse_ops ops)
+      then "spec-ok" else "SPEC-VIOLATED"
+    | _ -> "badargs")
+
+(* ---- WBRDEC: brotli's own prefix decoder (Brotli/PrefixDecoderImpl.v) -------------------------
+   brdectab <z|g<seed>:<npl>> <assign> <codes>
+   brdecread <assign> <codes> <hex|-> <mode> <bsz> <reads|-> op...   op = s | t | b:<n> *)
+let br_old_of_mode (m : string) : (n -> n) * (n -> n -> n) =
+  if m = "z" then ((fun _ -> N0), (fun _ _ -> N0))
+  else match colon (String.sub m 1 (String.length m - 1)) with
+    | [seed; npl] ->
+      let seed = int_of_string seed and npl = int_of_string npl in
+      (garbage seed, (fun i j -> if int_of_n i < npl then garbage (seed + 1 + int_of_n i) j else N0))
+    | _ -> failwith "brdectab mode"
+
+let fmt_codes (cs : ((n * n) * n) list) : string =
+  if cs = [] then "-" else
+  String.concat "," (List.map (fun ((s, l), v) -> Printf.sprintf "%s:%s:%s" (n_to_string s) (n_to_string l) (n_to_string v)) cs)
+
+let br_rs_name (r : rsres) : string = match r with
+  | RSym s -> "s:" ^ n_to_string s | RUEOF -> "ueof" | RInvalid -> "invalid" | RPanic -> "crash" | RFuel -> "fuel"
+
+let () =
+  register "brdectab" (fun args -> match args with
+    | [mode; assign; codes] ->
+      let (oldc, oldl) = br_old_of_mode mode in
+      (match br_dec_init oldc oldl (parse_codes codes) (assign = "1") with
+       | BOk0 (d, cs) -> "ok " ^ fmt_dump (dec_dump d) ^ " | " ^ fmt_codes cs
+       | BCorrupt -> "corrupt"
+       | BCrash -> "crash")
+    | _ -> "badargs");
+  register "brdecread" (fun args -> match args with
+    | assign :: codes :: hex :: mode :: bsz :: reads :: ops ->
+      let data = if hex = "-" then [] else bytes_of_hex hex in
+      (match br_dec_init (fun _ -> N0) (fun _ _ -> N0) (parse_codes codes) (assign = "1") with
+       | BOk0 (d, _) ->
+         let p0 = binit data (mode = "1") (br_ints reads) in
+         let dops = List.map (fun o -> match colon o with
+           | ["s"] -> DSym | ["t"] -> DTry | ["b"; n] -> DBits (n_of_string n) | _ -> failwith "op") ops in
+         let obs = bd_run (nat_of_int (int_of_string bsz)) d p0 dops in
+         String.concat "," (List.map (fun o -> match o with
+           | BDSym (r, p) -> br_rs_name r ^ "/" ^ br_state_string p
+           | BDTry (r, p) ->
+             (match r with None -> "crash" | Some None -> "t:no" | Some (Some s) -> "t:" ^ n_to_string s)
+             ^ "/" ^ br_state_string p
+           | BDBits (r, v, p) ->
+             (match r with FdOk -> "b:" ^ n_to_string v | FdEof -> "ueof" | FdCrash -> "crash" | FdFuel -> "fuel")
+             ^ "/" ^ br_state_string p) obs)
+       | BCorrupt -> "init-corrupt"
+       | BCrash -> "init-crash")
+    | _ -> "badargs")
